@@ -1349,6 +1349,10 @@ func (s *LoadingStore[K, V]) Get(ctx context.Context, key K) (V, error) {
 			// load and store should be atomic
 			shard.mu.Lock()
 			defer shard.mu.Unlock()
+			// once the shard is unlocked the loaded value can be overwritten or
+			// deleted: a caller that arrives after that must not join this call
+			// and be handed its result, so the call is unregistered first
+			defer shard.group.Forget(key)
 			if shard.closed {
 				return Loaded[V]{}, ErrCacheClosed
 			}
